@@ -148,7 +148,7 @@ def apply_model(lst, op):
     name = op[0]
     if name in ("rebuild", "copy", "fork_copy", "fork_ctor", "fork_extend", "swap"):
         return None
-    if name == "extend_self":
+    if name in ("extend_self", "extend_own_items"):
         lst.extend(list(lst))
         return None
     if name == "update_self":
@@ -252,6 +252,9 @@ def apply_real(d, op, cls):
         # the container as its own argument (list.extend(itself) doubles the list);
         # a loop that keeps reading what it appends is cut off after 0.3 s of CPU time
         return _bounded_cpu(lambda: d.extend(d))
+    if name == "extend_own_items":
+        # a view of the container itself as the argument
+        return _bounded_cpu(lambda: d.extend(d.items()))
     if name == "update_self":
         return d.update(d)
     if name == "extend_as":
@@ -591,7 +594,7 @@ def ex_ops():
             ("update_as", "keysobj", (("b", 2), ("a", 1))),
             ("insert_as", "lol", 1, (("b", 2), ("b", 1))),
             ("rebuild", "gen"), ("rebuild", "omd"), ("rebuild", "itemsobj"),
-            ("copy",), ("extend_self",), ("update_self",),
+            ("copy",), ("extend_self",), ("update_self",), ("extend_own_items",),
             ("fork_copy",), ("fork_ctor",), ("swap",)]
     return ops
 
@@ -667,7 +670,7 @@ def op_strategy():
         st.tuples(st.just("rebuild"),
                   st.sampled_from([c for c in CARRIERS if c not in UNIQUE_ONLY])),
         st.tuples(st.just("copy")),
-        st.tuples(st.sampled_from(["extend_self", "update_self"])),
+        st.tuples(st.sampled_from(["extend_self", "update_self", "extend_own_items"])),
         st.tuples(st.sampled_from(["fork_copy", "fork_ctor", "fork_extend", "swap"])),
     )
 
